@@ -12,7 +12,8 @@ STACK_THEOREMS += ['FlexVerif.C11StackC99.' + t for t in ('push_same', 'pop_same
 STACK_THEOREMS += ['FlexVerif.C11ScanBuf.' + t for t in ('scanBuffer_shape', 'guard_eval', 'scanBuffer_refuses', 'scanBuffer_accepts',
                                                          'scanned_fields', 'scanBuffer_spec')]
 
-FLUSH_THEOREMS = ['FlexVerif.C11Flush.' + t for t in ('flush_null', 'flush_spec', 'init_spec')]
+FLUSH_THEOREMS = ['FlexVerif.C11Flush.' + t for t in ('flush_null', 'flush_spec', 'init_spec')] + \
+    ['FlexVerif.C11FlushC99.' + t for t in ('load_same', 'flush_same', 'flush99_spec', 'init99_spec')]
 STACK_THEOREMS += FLUSH_THEOREMS
 
 
@@ -24,15 +25,18 @@ def regen_flush():
     flex, src = flexrun.build_flex()
     try:
         body, info = gen_flush.generate(flex, flexrun.scratch_root())
+        body99, info99 = gen_flush.generate_c99(flex, flexrun.scratch_root())
     except gen_flush.TranslateError as e:
         return None, str(e)
-    path = os.path.join(common.LEAN_DIR, 'FlexVerif', 'Gen', 'Flush.lean')
+    files = [(os.path.join(common.LEAN_DIR, 'FlexVerif', 'Gen', 'Flush.lean'), body),
+             (os.path.join(common.LEAN_DIR, 'FlexVerif', 'Gen', 'FlushC99.lean'), body99)]
     lock = open(os.path.join(common.LEAN_DIR, '.build.lock'), 'w')
     fcntl.flock(lock, fcntl.LOCK_EX)
     try:
-        old = open(path).read() if os.path.exists(path) else ''
-        if old != body:
-            open(path, 'w').write(body)
+        for path, text in files:
+            old = open(path).read() if os.path.exists(path) else ''
+            if old != text:
+                open(path, 'w').write(text)
     finally:
         fcntl.flock(lock, fcntl.LOCK_UN)
         lock.close()
